@@ -507,7 +507,7 @@ func (w *worldA) Generate(r *simrt.Rand, profile, tier string) any {
 	return s
 }
 
-var c06Alphabet = []string{"", "a", "b", "ab", "bc", "c", ",", "a,b", "b,c", "/", "a/b", "a\x00b", ".", "..", "xxxxxxxxxxxxxxxxxxxxxxxxxxxxxxxxxxxxxxxxxxxxxxxxxxxxxxxxxxxxxxxxxxxxxxxx"}
+var c06Alphabet = []string{"", "a", "b", "ab", "bc", "c", ",", "a,b", "b,c", "/", "a/b", "a\x00b", ".", "..", "a\t", "\ta", "\t", "a\x0b", "\ra", "xxxxxxxxxxxxxxxxxxxxxxxxxxxxxxxxxxxxxxxxxxxxxxxxxxxxxxxxxxxxxxxxxxxxxxxx"}
 
 // hostile material for C07, produced by grammar mutation of a valid record
 func hostileLine(r *simrt.Rand, n int) string {
@@ -623,7 +623,7 @@ func (w *worldA) tweak(r *simrt.Rand, s *AScenario, end int) {
 		s.Tag = tagOpts[r.Intn(len(tagOpts))]
 		s.KeyTuples = nil
 		// colliding concatenations and separators first, then random picks from the alphabet
-		seeds := [][]string{{"ab", "c"}, {"a", "bc"}, {"a,b", "c"}, {"a", "b,c"}, {"", "a"}, {"a", ""}, {",", ""}, {"", ","}, {"a/b", "c"}, {"a", "b"}}
+		seeds := [][]string{{"ab", "c"}, {"a", "bc"}, {"a,b", "c"}, {"a", "b,c"}, {"", "a"}, {"a", ""}, {",", ""}, {"", ","}, {"a/b", "c"}, {"a", "b"}, {"a\t", "a"}, {"a", "\ta"}, {"\t", "a"}}
 		for i, n := 0, 2+r.Intn(5); i < n; i++ {
 			var app, pid string
 			if r.Bool(60) {
